@@ -15,6 +15,13 @@
 (*         "mod": they follow the last modification                        *)
 (*   by    a second node of the same type defined between the definition   *)
 (*         and the modifications (bystander), or [t |-> "nil"]             *)
+(*   refm  [t |-> "nil"] or the value a modification assigns to the        *)
+(*         REFERENCE node: comparison atoms whose literal has t = "ref"    *)
+(*         compare {?} with another node `{?lim}` defined in front (the    *)
+(*         literal's n, u, k are that node's definition)                   *)
+(*   split "one": one text; "two": the definitions with their constraint   *)
+(*         lines are parsed first and every modification is a second       *)
+(*         text parsed on top of the returned environment, DIP(env)        *)
 (*   via   "direct": the modifications address the defined node itself     *)
 (*         "local" : the node is defined (with its constraint lines) in a  *)
 (*                   group, imported elsewhere by `{?group.*}` and the     *)
@@ -98,6 +105,8 @@ Alt2(nu) == AltSeq(nu)[2]
 Base(l, nu)  == IF l.u = "" \/ nu = "" \/ l.u = nu THEN l.n ELSE QDiv(QMul(l.n, UnitF[l.u]), UnitF[nu])
 \* a literal is "foreign" when it is written in another unit than the node's: a conversion happens
 Foreign(l, nu) == l.u # "" /\ l.u # nu
+\* a number written in the condition ("num") or the value of the referenced node ("ref")
+IsNumLit(l) == l.t \in {"num", "ref"}
 \* b node-units written in unit u
 InUnit(b, u, nu) == IF u = "" \/ nu = "" THEN b ELSE QDiv(QMul(b, UnitF[nu]), UnitF[u])
 Num(b, u, k, nu) == [t |-> "num", n |-> InUnit(b, u, nu), u |-> u, k |-> k]
@@ -146,7 +155,7 @@ ICmp(op, d, conv) ==
 
 \* one comparison of a condition: {?} bound to the value v
 IAtom(nu, v, a) ==
-  CASE a.lit.t = "num" ->
+  CASE IsNumLit(a.lit) ->
          LET dv == DistL(v, a.lit, nu)
              d  == IF a.left = "self" THEN dv ELSE -dv
          IN ICmp(a.op, d, Foreign(v, nu) \/ Foreign(a.lit, nu))
@@ -207,8 +216,26 @@ Ideal3D(p) ==
 \* an imported node is a node of the environment like any other and keeps the constraint lines of its
 \* definition: the ORIGINAL (never modified: its final value is the definition's) and the modified COPY
 \* must both satisfy them (a remote original is judged when its source file is parsed)
-Ideal3(p) == IF p.via = "direct" THEN Ideal3D(p)
-             ELSE AndAll3({Ideal3D([p EXCEPT !.mods = <<>>]), Ideal3D(p)})
+Ideal3V(p) == IF p.via = "direct" THEN Ideal3D(p)
+              ELSE AndAll3({Ideal3D([p EXCEPT !.mods = <<>>]), Ideal3D(p)})
+
+\* the reference node has been modified: the comparisons with it see its final value
+ResolveLit(l, r) == IF l.t = "ref" THEN [l EXCEPT !.n = r.n, !.u = r.u, !.k = r.k] ELSE l
+Resolve(p) ==
+  IF p.refm.t = "nil" THEN p
+  ELSE [p EXCEPT !.refm = Nil,
+                 !.cons = [i \in 1..Len(p.cons) |->
+                             IF p.cons[i].c # "cond" THEN p.cons[i]
+                             ELSE [p.cons[i] EXCEPT !.atoms = [j \in 1..Len(p.cons[i].atoms) |->
+                                     [p.cons[i].atoms[j] EXCEPT !.lit = ResolveLit(@, p.refm)]]]]]
+\* final values decide; not separated: whether the condition had to hold before the reference changed too
+Ideal3R(p) == IF p.refm.t = "nil" THEN Ideal3V(p)
+              ELSE LET fin == Ideal3V(Resolve(p))  ini == Ideal3V([p EXCEPT !.refm = Nil])
+                   IN Agree(fin, AndAll3({fin, ini}))
+\* two parses: the environment returned by the first (definitions and constraint lines only) and the one
+\* returned by the second (all modifications on top of it) must both satisfy every constraint
+FirstText(p) == [p EXCEPT !.mods = <<>>, !.refm = Nil, !.split = "one"]
+Ideal3(p) == IF p.split = "one" THEN Ideal3R(p) ELSE AndAll3({Ideal3R(FirstText(p)), Ideal3R(p)})
 
 Ideal(p) == CASE Ideal3(p) = "T" -> "accept" [] Ideal3(p) = "F" -> "reject" [] OTHER -> "unspec"
 
@@ -216,6 +243,7 @@ Ideal(p) == CASE Ideal3(p) = "T" -> "accept" [] Ideal3(p) = "F" -> "reject" [] O
 AmbTags(p) ==
   LET asg == Assigned(p) IN
   IF asg = <<>> \/ Ideal3(p) # "U" THEN {}
+  ELSE IF p.refm.t # "nil" \/ p.split = "two" THEN {"reference_changed_or_two_parses"}
   ELSE IF Ideal3D(p) # "U" THEN {"imported_original"}
   ELSE IF IsArr(p) THEN {"intermediate_dims"}
   ELSE IF Last(asg).t = "none" THEN {"final_none"}
@@ -246,8 +274,8 @@ MCmp(op, d, devs) ==
 \* node's unit when it carries another one (float), then cast with the node's dtype:
 \* int(float) truncates, int('3.5') raises.  -> "T" | "F" | "X" (an exception escapes)
 MAtom(ty, nu, v, a, devs) ==
-  IF a.lit.t = "num" THEN
-    LET cast   == ty = "int" /\ "int_literal_cast" \in devs
+  IF IsNumLit(a.lit) THEN
+    LET cast   == ty = "int" /\ a.lit.t = "num" /\ "int_literal_cast" \in devs
         frn    == Foreign(a.lit, nu)
         raises == cast /\ ~frn /\ (~QIsInt(a.lit.n) \/ a.lit.k # 0)
         lb     == IF cast /\ frn THEN QTrunc(Base(a.lit, nu)) ELSE Base(a.lit, nu)
@@ -261,7 +289,7 @@ MAtom(ty, nu, v, a, devs) ==
 MCond(ty, nu, v, c, devs) ==
   LET rs == {MAtom(ty, nu, v, c.atoms[i], devs) : i \in 1..Len(c.atoms)} IN
   IF "X" \in rs THEN "X"
-  ELSE IF c.join = "one" /\ c.atoms[1].op = "==" /\ c.atoms[1].lit.t = "num" /\ "bare_equality" \in devs THEN "X"
+  ELSE IF c.join = "one" /\ c.atoms[1].op = "==" /\ IsNumLit(c.atoms[1].lit) /\ "bare_equality" \in devs THEN "X"
   ELSE IF c.join = "or" THEN OrAll3(rs) ELSE AndAll3(rs)
 
 \* the validation loop of DIP.parse for one node that has the value v and the constraint lines cs
@@ -304,10 +332,15 @@ MachD(p, devs) ==
 \* new path and queues them; the copies are appended to target.nodes like defined nodes, modified like
 \* them and pass through the same validation loop; the original stays in the environment (local) or was
 \* validated by the parse of its source file (remote)
-Mach(p, devs) ==
+Both(o, c) == IF o = "reject" \/ c = "reject" THEN "reject" ELSE IF o = "na" \/ c = "na" THEN "na" ELSE "accept"
+MachV(p, devs) ==
   IF p.via = "direct" THEN MachD(p, devs)
-  ELSE LET o == MachD([p EXCEPT !.mods = <<>>], devs)  c == MachD(p, devs)
-       IN IF o = "reject" \/ c = "reject" THEN "reject" ELSE IF o = "na" \/ c = "na" THEN "na" ELSE "accept"
+  ELSE Both(MachD([p EXCEPT !.mods = <<>>], devs), MachD(p, devs))
+\* the validation loop runs over ALL nodes of the target environment at the end of every parse and
+\* LogicalSolver requests a fresh copy of a referenced node for every occurrence: final values decide
+Mach(p, devs) ==
+  IF p.split = "one" THEN MachV(Resolve(p), devs)
+  ELSE Both(MachV(FirstText(p), devs), MachV(Resolve(p), devs))
 
 \* the deviations that decide this program's machine verdict, and their feature words
 Causal(p) == {d \in Devs : Mach(p, Devs) # Mach(p, Devs \ {d})}
@@ -337,13 +370,13 @@ OblOpts(nu, cs) ==
 OblOf(nu, c) ==
   CASE c.c = "cond" -> [o |-> "cond", join |-> c.join, atoms |-> [i \in 1..Len(c.atoms) |->
                           LET a == c.atoms[i] IN
-                          IF a.lit.t = "num" THEN [op |-> a.op, left |-> a.left, b |-> Base(a.lit, nu), k |-> a.lit.k]
+                          IF IsNumLit(a.lit) THEN [op |-> a.op, left |-> a.left, b |-> Base(a.lit, nu), k |-> a.lit.k]
                           ELSE [op |-> a.op, left |-> a.left, lit |-> a.lit]]]
     [] c.c = "fmt"  -> [o |-> "fullmatch", pat |-> c.pat]
 ValOf(nu, v) == CASE v.t = "num" -> [o |-> "value", b |-> Base(v, nu), k |-> v.k, unit |-> nu]
                   [] v.t = "arr" -> [o |-> "shape", shape |-> v.shape]
                   [] OTHER       -> [o |-> "value", lit |-> v]
-Obl(p) == LET f == Last(Assigned(p)) IN
+Obl(q) == LET p == Resolve(q)  f == Last(Assigned(q)) IN
           <<ValOf(p.nu, f)>>
           \o (IF OptVals(p.cons) = {} THEN <<>> ELSE <<OblOpts(p.nu, p.cons)>>)
           \o (LET cf == SelectSeq(p.cons, LAMBDA c : c.c # "opts") IN [i \in 1..Len(cf) |-> OblOf(p.nu, cf[i])])
@@ -416,6 +449,27 @@ NumPool1(ty, nu) ==
      \cup {One(At(op, left, l)) : op \in Ops6, left \in {"self", "lit"}, l \in lits}
      \cup {Two(j, At(op, "self", a1), a2) : j \in {"and", "or"}, op \in Ops6,
                                              a2 \in {At("<", "self", b), At("==", "lit", b)}}
+     \* zero among the options, at every position, in both forms
+     \cup (LET z0 == Num(Z, "", 0, nu)  zn == Num(Z, nu, 0, nu)
+         IN {List(<<z0>>), List(<<z0, a0>>), List(<<a0, z0>>), List(<<cA, zn, b>>), Lines(<<z0>>), Lines(<<a0, z0>>)}
+            \cup (IF HasAlt(nu) THEN {List(<<Num(Z, Alt1(nu), 0, nu), a1>>)} ELSE {}))
+     \* a literal written without unit is read in the node's unit (like an option or a modification)
+     \cup {One(At(op, "self", l)) : op \in Ops6, l \in {a0, Num(B, "", 0, nu)}}
+
+\* conditions that compare {?} with ANOTHER node given in a different unit, next to comparisons with
+\* literals, in every order (only with coarse values)
+Ref(b, u, nu) == [t |-> "ref", n |-> InUnit(b, u, nu), u |-> u, k |-> 0]
+Three(j, a, b, c) == [c |-> "cond", join |-> j, atoms |-> <<a, b, c>>]
+RefPool(ty, nu) ==
+  IF ~HasAlt(nu) THEN {}
+  ELSE LET r  == Ref(B, Alt1(nu), nu)
+           rs == {At("<=", "self", r), At("<", "self", r), At(">=", "lit", r)}
+           ls == {At("<", "self", Num(B, "", 0, nu)), At(">=", "self", Num(A, "", 0, nu)), At("==", "self", Num(A, nu, 0, nu))}
+       IN {Two(j, x, y) : j \in {"and", "or"}, x \in rs, y \in ls}
+          \cup {Two(j, y, x) : j \in {"and", "or"}, x \in rs, y \in ls}
+          \cup {Three(j, At(">=", "self", Num(A, "", 0, nu)), x, At("<", "self", Num(B, "", 0, nu))) : j \in {"and", "or"}, x \in rs}
+          \cup {One(x) : x \in rs}
+RefmPool(ty, nu) == {Num(A, nu, 0, nu), Num(A, Alt1(nu), 0, nu), Num(B, Alt1(nu), 12, nu)} \cup {Num(<<5, 1>>, nu, 0, nu)}
 
 StrPool3 == LET s1 == Str(StrOrder[1])  s2 == Str(StrOrder[2]) IN
   {Lines(<<s1>>), List(<<s1, s2>>), One(At("==", "self", s1)), Fmt(FmtOrder[1])}
@@ -440,7 +494,9 @@ Lvl(c, ty, nu) == IF c \in Pool3(ty, nu) THEN 3 ELSE IF c \in Pool2(ty, nu) THEN
 \* and the value pools
 FamKeys == {<<f.ty, f.nu>> : f \in {g \in Families : ~g.arr}}
 ConsTab == [k \in FamKeys |->
-              {[c |-> x, l |-> Lvl(x, k[1], k[2])] : x \in Pool3(k[1], k[2]) \cup Pool2(k[1], k[2]) \cup Pool1(k[1], k[2])}]
+              {[c |-> x, l |-> Lvl(x, k[1], k[2]), co |-> FALSE] : x \in Pool3(k[1], k[2]) \cup Pool2(k[1], k[2]) \cup Pool1(k[1], k[2])}
+              \cup (IF IsNum(k[1]) THEN {[c |-> x, l |-> 1, co |-> TRUE] : x \in RefPool(k[1], k[2])} ELSE {})]   \* co: coarse values only
+HasRef(cs) == \E i \in 1..Len(cs) : cs[i].c = "cond" /\ \E j \in 1..Len(cs[i].atoms) : cs[i].atoms[j].lit.t = "ref"
 DefTab  == [k \in FamKeys |-> DefPool(k[1], k[2])]
 ModTab  == [k \in FamKeys |-> ModPool(k[1], k[2])]
 FineTab == [k \in FamKeys |-> {l \in DefPool(k[1], k[2]) \cup ModPool(k[1], k[2]) : Fine(l, k[2])}]
@@ -487,7 +543,7 @@ Start == /\ ph = 0
          /\ \E f \in Families : \E dm \in DimsOf(f) :
               \E d \in {Decl} \cup (IF f.arr THEN {ArrL(s, dm) : s \in Shapes(dm)} ELSE DefTab[<<f.ty, f.nu>>]) :
                 p' = [ty |-> f.ty, nu |-> f.nu, dims |-> dm, def |-> d, mods |-> <<>>,
-                      cons |-> <<>>, place |-> "def", by |-> Nil, via |-> "direct"]
+                      cons |-> <<>>, place |-> "def", by |-> Nil, via |-> "direct", refm |-> Nil, split |-> "one"]
          /\ ph' = 1 /\ lv' = {}
 
 \* only the final assignment may be a fine value; two-step chains only in coarse values (none allowed between)
@@ -517,12 +573,24 @@ SetPlace == /\ ph \in {1, 2} /\ ~IsArr(p) /\ p.mods # <<>> /\ Coarse(p) /\ p.via
 AddCons == /\ ph \in 1..4 /\ ~IsArr(p)
            /\ \E e \in ConsTab[<<p.ty, p.nu>>] :
                  /\ OrderOK(p.cons, e.c)
+                 /\ e.co => (Coarse(p) /\ p.via = "direct" /\ p.by.t = "nil" /\ p.place = "def")
                  /\ Len(p.cons) + 1 <= Cap(p, lv \cup {e.l})
                  /\ p' = [p EXCEPT !.cons = Append(@, e.c)]
                  /\ lv' = lv \cup {e.l}
            /\ ph' = 4
 
-Next == Start \/ AddMod \/ SetVia \/ SetBy \/ SetPlace \/ AddCons
+\* the referenced node gets a new value (the constrained node itself is not modified then)
+SetRefm == /\ ph = 4 /\ HasRef(p.cons) /\ p.mods = <<>> /\ p.def.t = "num"
+           /\ \E r \in RefmPool(p.ty, p.nu) : p' = [p EXCEPT !.refm = IF p.ty = "int" THEN [r EXCEPT !.k = 0] ELSE r]
+           /\ ph' = 5 /\ lv' = lv
+\* the modifications become a second text parsed on top of the environment the first parse returned
+\* (possibly an empty one): one constraint line of level >= 2 or a reference condition, coarse values
+SetSplit == /\ ph \in {4, 5} /\ ~IsArr(p) /\ Coarse(p) /\ p.via = "direct" /\ p.by.t = "nil" /\ p.place = "def"
+            /\ Len(p.cons) = 1 /\ (IF HasRef(p.cons) THEN TRUE ELSE lv \subseteq {2, 3})
+            /\ p' = [p EXCEPT !.split = "two"]
+            /\ ph' = 6 /\ lv' = lv
+
+Next == Start \/ AddMod \/ SetVia \/ SetBy \/ SetPlace \/ AddCons \/ SetRefm \/ SetSplit
 Spec == Init /\ [][Next]_vars
 
 IsProgram == ph >= 1 /\ ((p.by.t # "nil" \/ p.place = "mod") => p.cons # <<>>)
